@@ -16,7 +16,7 @@ META = {
             '3*2^38, 2^38+2^12, 2^63, u64::MAX, 2^64+64) and back; last block pending + failing apply (+ empty apply '
             'while pending); end of the u64 range; current_pos at type edges; wide path after a mid-block seek; repeated '
             'failing applies; backward seeks; [new] 2-8 KiB applies from a mid-block seek (8..32 wide iterations in one '
-            'call, twice; in the first round, i.e. once per run, followed by ONE apply of 64 KiB + 256..4255 bytes continuing mid-block: '
+            'call, twice; in the first round, i.e. once per run - quick: host debug/release and portable release runs only -, followed by ONE apply of 64 KiB + 256..4255 bytes continuing mid-block: '
             '> 256 wide iterations and > 2^16 bytes in one call, whole output compared with the model and the block oracle); [new] 4-5 KiB across 2^32 blocks (IETF: refused whole, then exactly to the end, then one more '
             'byte refused); random histories: positions concentrated at 0, 2^32 blocks, k*2^32 blocks (k >= 2), 2^38 '
             'bytes, 2^64 bytes; every SeekNum type incl. negative i32, u128 beyond 2^64 up to 2^128-1, IETF seeks '
@@ -54,7 +54,10 @@ def run(ctx):
             raise vlib.CheckError("harness build failed (%s %s): %s" % (profile, feats, log[-2000:]))
         s = vlib.correspondence(ctx, binary, "hist",
                                 ["--mode", "c02", "--count", cnt, "--maxops", maxops, "--big", 0 if ctx.quick else 1, "--level", level,
-                                 "--large-permille", 12 if ctx.quick else 20],
+                                 "--large-permille", 12 if ctx.quick else 20,
+                                 # ONE ~66 KiB apply in the first kind-12 history (its Coq case costs ~3 s): host back end in
+                                 # both profiles and the portable release build in quick, everywhere in thorough
+                                 "--long-apply", 1 if (not ctx.quick or (level == 0 and (not feats or profile == "release"))) else 0],
                                 "%s/%s" % (label, profile))
         ctx.log("%s/%s: %d histories (%s boundary, kinds %s; %s random), longest apply %s bytes, %d disagree, %d direct failures" %
                 (label, profile, s.get("evaluations", 0), s.get("boundary_histories"), s.get("boundary_histories_by_kind"),
